@@ -14,8 +14,10 @@ VARIABLE l
 \* The number of showdowns is C02's business; C08 only asks that the run ends normally, stays ended, and is empty
 \* when a player has no hands.  (A recorder that sees more showdowns than deals can exist stops and reports
 \* sticky = 0, so an endless iterator is rejected here without being waited for.)
+\* positions x product of the range sizes, saturated (TLC integers are 32-bit)
+SatMul(a, b) == IF b = 0 THEN 0 ELSE IF a > 1000000 \div b THEN 1000000 ELSE a * b
 MaxDeals(e) == LET RECURSIVE Prod(_)
-                   Prod(k) == IF k > Len(e.ranges) THEN 1 ELSE (IF Len(e.ranges[k]) = 0 THEN 1 ELSE Len(e.ranges[k])) * Prod(k + 1)
+                   Prod(k) == IF k > Len(e.ranges) THEN 1 ELSE SatMul(Prod(k + 1), (IF Len(e.ranges[k]) = 0 THEN 1 ELSE Len(e.ranges[k])))
                IN 1177 * Prod(1)
 AllowedC08(e) ==
   /\ e.outcome = "ok"
